@@ -617,8 +617,10 @@ def input_ok(text: str, tlimit: float = 10.0) -> tuple[str, int, str]:
         return "timeout", 0, ""
 
 
-def ssa_obligations(module: Any) -> tuple[list[str], list[str]]:
+def ssa_obligations(module: Any, in_block_order: bool = True) -> tuple[list[str], list[str]]:
     """SSA dominance of a module, reduced to what the Lean model `ssa_dom` decides.
+    in_block_order=False (the re-ordered families): the position of a definition relative to its user inside ONE block
+    is not looked at (xDSL's parser and verifier accept either order); everything else is still demanded.
     Returns (protocol lines, one per multi-block region that has cross-block uses; local violations found
     while walking: a use before its definition inside one block, a use of a value that is not defined in an
     enclosing region).  Graph regions (the module body) carry no order."""
@@ -664,7 +666,7 @@ def ssa_obligations(module: Any) -> tuple[list[str], list[str]]:
             if isinstance(dreg.parent, ModuleOp):
                 continue
             if a.parent is dblk:
-                if dop is not None and op_pos(dblk, dop) >= op_pos(dblk, a):
+                if in_block_order and dop is not None and op_pos(dblk, dop) >= op_pos(dblk, a):
                     local.append(f"{u.name}: used before (or inside) its definition {dop.name} in one block")
                 continue
             ent = obl.get(id(dreg))
@@ -681,6 +683,23 @@ def ssa_obligations(module: Any) -> tuple[list[str], list[str]]:
         uniq = list(dict.fromkeys(pairs))
         lines.append("ssa " + " ".join(ws) + " | " + " ".join(f"{x}>{y}" for x, y in uniq))
     return lines, local
+
+
+def rewritten_kinds(cls: type, text: str, tlimit: float) -> list[str]:
+    """kinds of the operations the default instance of the pass removes or replaces on this module (kinds of which
+    fewer are left when the pass returns); [] if the pass raises / cannot be built / changes no count"""
+    from collections import Counter
+    from xdsl.parser import Parser
+    try:
+        with quiet(), cpu_guard(tlimit):
+            ctx = fresh_context()
+            m = Parser(ctx, text).parse_module()
+            before = Counter(o.name for o in m.walk())
+            cls().apply(ctx, m)
+            after = Counter(o.name for o in m.walk())
+            return sorted(k for k, n in before.items() if after.get(k, 0) < n)
+    except BaseException:  # noqa: BLE001  (incl. CpuTimeout)
+        return []
 
 
 def schedule_instances(cls: type, text: str, tlimit: float) -> list[dict[str, Any]]:
